@@ -69,7 +69,9 @@ TECHNIQUE = "Lean 4 invariant induction over fault sequences of a crash/resume s
 
 PY = "/venv/bin/python"
 SEED = 0   # a legal --seed that is falsy: `seed or random` style handling must not lose it
-IDS = ["rec12", "rec11", "rec1", "ab", "a", "b0"]   # not sorted; later ids are substrings / prefixes of earlier ones
+# not sorted; later ids are substrings / prefixes of earlier ones; two contain a dot after the same stem (an id is an
+# opaque string, not a file name whose "extension" may be replaced)
+IDS = ["rec12", "rec1.b", "rec1", "ab", "a", "rec1.a"]
 CFGS = {
     "raw": None,
     "fbank": {"name": "stft", "bank": {"name": "fbank", "num_filts": 5, "sampling_rate": 8000},
@@ -206,6 +208,10 @@ def argv_for(d, cfg, workers, naming=None):
         a.append(json.dumps(CFGS[cfg]))
     a += [os.path.join(d, "feat"), "--preprocess", '["dither"]', "--seed", str(SEED),
           "--manifest", os.path.join(d, "manifest.txt"), "--num-workers", str(workers)]
+    if cfg in ("fbank", "si"):
+        # a post-processor object lives as long as its worker: per-utterance normalisation (Standardize without global
+        # statistics) must not carry anything from one utterance to the next
+        a += ["--postprocess", '["standardize"]']
     if naming:
         # `--opt=value` so that an empty value is passed as such
         a += ["--file-prefix=" + naming[0], "--file-suffix=" + naming[1]]
